@@ -27,6 +27,7 @@ def plan(tier, seed):
     specs = [{"kind": "seeds", "count": n // shards} for _ in range(shards)]
     specs.append({"kind": "vectors"})
     specs.append({"kind": "malformed", "count": 300 if tier == "quick" else 6000})
+    specs.append({"kind": "malformed", "count": 300 if tier == "quick" else 3000, "after_activity": True})
     specs.append({"kind": "files", "count": 20 if tier == "quick" else 400})
     for T in ([4] if tier == "quick" else [2, 4, 8, 16]):
         specs.append({"kind": "threads", "threads": T, "count": 400 if tier == "quick" else 6000})
@@ -186,6 +187,13 @@ MALFORMED_HEX = [
 def run_malformed(spec, rec, lib):
     rng = random.Random(spec["seed"])
     C = lib.common
+    if spec.get("after_activity"):
+        # what a key encoding is does not depend on what happened earlier in the process: every kind of unrelated activity first
+        # (command-line runs that end early on unreadable key files, calls with each switchable option on, failed loads, ...)
+        from ..engines import noise
+
+        noise.provoke(lib, rng, spec.get("scratch"))
+        rec.count("malformed_encodings_offered_after_unrelated_activity")
     targets = [
         ("common.PrivateKey.from_bytes", MALFORMED_BYTES),
         ("common.PublicKey.from_bytes", MALFORMED_BYTES),
